@@ -220,6 +220,37 @@ Proof. intros H Ha Hb Hab HE. inv_fields H. constructor; cbn [pend vert smap dis
     destruct (iv_dec v a) as [->|N]; [right; right; left; apply in_or_app; right; left; reflexivity|right; left; apply remove_iv_In; auto].
   - exact HE. Qed.
 
+Lemma chron_filter f m : chron m -> chron (filter f m).
+Proof. induction m as [|[k v] t IH]; cbn [chron filter]; intros C; [exact I|]. destruct C as (C1 & C2 & C3 & C4). destruct (f (k, v)); [|auto]. cbn [chron]. repeat split.
+  - exact C1.
+  - intros e A. apply filter_In in A. apply C2. tauto.
+  - intros A. apply C3. unfold keys in *. apply in_map_iff in A. destruct A as (e & E & A). apply filter_In in A. apply in_map_iff. exists e. tauto.
+  - auto. Qed.
+Lemma keys_filter_ne m i k : In k (keys (filter (fun e : iv * iv => negb (iv_eqb (fst e) i)) m)) <-> In k (keys m) /\ k <> i.
+Proof. unfold keys. rewrite !in_map_iff. split.
+  - intros ([a b] & E & A). apply filter_In in A. destruct A as [A B]. cbn [fst] in *. subst. apply negb_true_iff, iv_eqb_neq in B. split; [exists (k, b); auto|exact B].
+  - intros [([a b] & E & A) N]. cbn [fst] in E. subst. exists (k, b). split; [reflexivity|]. apply filter_In. split; [exact A|]. cbn [fst]. apply negb_true_iff, iv_eqb_neq. exact N. Qed.
+
+(* discarding a collapsed intron (a key) that a look-up had re-created: its map entry is dropped *)
+Lemma inv_discard_key R s i : Inv R s -> ~ In i (vert s) -> In i (keys (smap s)) ->
+  Inv R (mkG (pend s) (vert s) (filter (fun e => negb (iv_eqb (fst e) i)) (smap s)) (i :: disc s) (edges s)).
+Proof. intros H Nv Hk. inv_fields H. constructor; cbn [pend vert smap disc edges].
+  - exact Hv.
+  - exact Hp.
+  - intros v [<-|A]; [|auto]. apply keys_in in Hk. destruct Hk as (x & Hk). exact (proj1 (Hm _ _ Hk)).
+  - intros k v A. apply filter_In in A. destruct A as [A _]. destruct (Hm _ _ A) as (X & Y & Z). split; [exact X|]. split; [exact Y|].
+    destruct Z as [Z|[Z|Z]]; [left; exact Z| |right; right; right; exact Z]. destruct (iv_dec v i) as [->|N]; [right; right; left; reflexivity|right; left; apply keys_filter_ne; auto].
+  - intros v A B. apply keys_filter_ne in B. exact (Hvk _ A (proj1 B)).
+  - intros v A [<-|B]; [contradiction|exact (Hvd _ A B)].
+  - exact Hvp.
+  - intros v A B. apply keys_filter_ne in B. exact (Hpk _ A (proj1 B)).
+  - intros v A [<-|B]; [exact (Hpk _ A Hk)|exact (Hpd _ A B)].
+  - intros v A [<-|B]; apply keys_filter_ne in A; [destruct A; congruence|exact (Hkd _ (proj1 A) B)].
+  - apply chron_filter. exact Hc.
+  - intros v A. destruct (Hcov _ A) as [X|[X|[X|X]]]; [auto|auto| |right; right; right; right; exact X].
+    destruct (iv_dec v i) as [->|N]; [right; right; right; left; reflexivity|right; right; left; apply keys_filter_ne; auto].
+  - exact He. Qed.
+
 Lemma inv_step R s o s' : Inv R s -> step s o = Some s' -> Inv R s'.
 Proof. intros H St. destruct o; cbn [step] in St.
   - (* AddVertex *) destruct (mem i (pend s)) eqn:E; [|discriminate]. inversion St; subst; clear St. apply mem_In in E.
@@ -284,7 +315,9 @@ Proof. intros H St. destruct o; cbn [step] in St.
   - (* AddSubstitute *) destruct (mem a (vert s) && mem b (vert s) && negb (iv_eqb a b)) eqn:E; [|discriminate]. inversion St; subst; clear St.
     apply andb_true_iff in E. destruct E as [E E3]. apply andb_true_iff in E. destruct E as [E1 E2]. apply mem_In in E1. apply mem_In in E2. apply negb_true_iff, iv_eqb_neq in E3.
     apply inv_substitute; auto. exact (i_edges _ _ H).
-  - (* Discard *) destruct (mem i (vert s)) eqn:E; [|discriminate]. inversion St; subst; clear St. apply mem_In in E. inv_fields H. constructor; cbn [pend vert smap disc edges].
+  - (* Discard *) destruct (mem i (vert s)) eqn:E.
+    2:{ destruct (mem i (keys (smap s))) eqn:E2; [|discriminate]. inversion St; subst; clear St. apply inv_discard_key; [exact H|apply mem_nIn; exact E|apply mem_In; exact E2]. }
+    inversion St; subst; clear St. apply mem_In in E. inv_fields H. constructor; cbn [pend vert smap disc edges].
     + intros v A. apply remove_iv_In in A. apply Hv. tauto.
     + exact Hp.
     + intros v [<-|A]; auto.
@@ -303,7 +336,8 @@ Proof. intros H St. destruct o; cbn [step] in St.
   - (* DropOut *) inversion St; subst; clear St. inv_fields H. constructor; cbn [pend vert smap disc edges]; auto. intros x y A. apply filter_In in A. apply He. tauto.
   - (* CutOut *) inversion St; subst; clear St. inv_fields H. constructor; cbn [pend vert smap disc edges]; auto. intros x y A. apply filter_In in A. apply He. tauto.
   - (* SimplifyMap *) inversion St; subst. apply inv_simplify. exact H.
-  - (* Snap *) destruct (same_set V (vert s) && same_set2 M (smap s) && same_set D (disc s) && same_set2 E (edges s)); [|discriminate]. inversion St; subst. exact H.
+  - (* Snap *) destruct (_ && _ && _ && _ && _); [|discriminate]. inversion St; subst. exact H.
+  - (* Touch *) destruct (mem i _); [|discriminate]. inversion St; subst. exact H.
   - discriminate. Qed.
 
 Lemma inv_run R ops : forall s s', Inv R s -> run s ops = Some s' -> Inv R s'.
